@@ -277,9 +277,11 @@ Section Read2.
 
   Lemma read_row_first conf names row :
     read_row conf names ([], []) row
-    = do cols' <- scan_row (alloc_columns names conf) row; Ok (cols', names).
+    = if coerce_nil_hit conf names then Fail
+      else do cols' <- scan_row (alloc_plain names conf) row; Ok (cols', names).
   Proof.
-    unfold Sql.read_row.
+    unfold Sql.read_row. rewrite alloc_columns_eq.
+    destruct (coerce_nil_hit conf names); [reflexivity|]. cbn [obind].
     replace (match q_coerce conf with Some m => coerce_check m [] | None => true end) with true
       by (destruct (q_coerce conf); [now rewrite coerce_check_nil|reflexivity]).
     reflexivity.
@@ -290,7 +292,7 @@ Section Read2.
     read_row conf names (cols, names) row = do cols' <- scan_row cols row; Ok (cols', names).
   Proof.
     intros Hlen. destruct cols as [|c cs]; [|reflexivity].
-    destruct names; [|discriminate]. apply read_row_first.
+    destruct names; [|discriminate]. rewrite read_row_first. reflexivity.
   Qed.
 
   Lemma read_rows_run2 conf names : forall rs k cols,
@@ -305,18 +307,20 @@ Section Read2.
 
   Lemma read_rows_first2 conf names r rs :
     read_rows conf names None 0 ([], []) (r :: rs)
-    = do cs <- run_rows (alloc_columns names conf) (r :: rs); Ok (cs, names).
+    = if coerce_nil_hit conf names then Fail
+      else do cs <- run_rows (alloc_plain names conf) (r :: rs); Ok (cs, names).
   Proof.
-    rewrite read_rows_cons. rewrite read_row_first. cbn [SqlProofs.run_rows].
-    destruct (scan_row (alloc_columns names conf) r) as [cols'| |] eqn:E; simpl; auto.
-    apply read_rows_run2. rewrite (scan_row_length fixed pf _ _ _ E). unfold alloc_columns. now rewrite map_length.
+    rewrite read_rows_cons. rewrite read_row_first.
+    destruct (coerce_nil_hit conf names); [reflexivity|]. cbn [SqlProofs.run_rows].
+    destruct (scan_row (alloc_plain names conf) r) as [cols'| |] eqn:E; simpl; auto.
+    apply read_rows_run2. rewrite (scan_row_length fixed pf _ _ _ E). unfold alloc_plain. now rewrite map_length.
   Qed.
 
   Lemma alloc_nth conf names j dc :
     (j < length names)%nat ->
-    nth j (alloc_columns names conf) dc = new_column (q_precision conf) (co_of conf (nth j names [])).
+    nth j (alloc_plain names conf) dc = new_column (q_precision conf) (co_of conf (nth j names [])).
   Proof.
-    intros Hj. unfold alloc_columns.
+    intros Hj. unfold alloc_plain.
     rewrite nth_indep with (d' := new_column (q_precision conf) (co_of conf []))
       by (now rewrite map_length).
     unfold co_of.
@@ -327,18 +331,18 @@ Section Read2.
 
   (* from the final columns to the frame: the result map and qframe.New (any configuration) *)
   Lemma read_sql_from_run conf names r rs finals ds dc :
-    NoDup names -> forallb check_name names = true ->
-    run_rows (alloc_columns names conf) (r :: rs) = Ok finals ->
+    NoDup names -> forallb check_name names = true -> coerce_nil_hit conf names = false ->
+    run_rows (alloc_plain names conf) (r :: rs) = Ok finals ->
     length finals = length names -> length ds = length names ->
     (forall j, (j < length names)%nat ->
        col_data (nth j finals dc) = Some (nth j ds (CInt []))
        /\ coldata_len (nth j ds (CInt [])) = length (r :: rs)) ->
     read_sql conf (mkRS names (r :: rs)) no_faults = Ok (combine names ds).
   Proof.
-    intros Hnd Hnames Hrun Hfinlen Hdslen Hfin.
+    intros Hnd Hnames Hnil Hrun Hfinlen Hdslen Hfin.
     unfold Sql.read_sql. cbn [sf_prepare sf_query sf_row no_faults]. unfold Sql.io_read_sql.
     cbn [rs_names rs_rows].
-    rewrite read_rows_first2. rewrite Hrun. cbn [obind].
+    rewrite read_rows_first2. rewrite Hnil. rewrite Hrun. cbn [obind].
     pose proof (result_map_spec pf finals names [] [] Hfinlen Hnd eq_refl) as Hrm. simpl in Hrm.
     rewrite Hrm. cbn [obind].
     assert (Hmap : map col_data finals = map Some ds).
@@ -384,6 +388,7 @@ Section Read2.
     destruct (negb (forallb (fun r => Nat.eqb (length r) (length names)) rows)) eqn:C1; [discriminate|].
     destruct (negb (nodupb names && forallb check_name names)) eqn:C2; [discriminate|].
     destruct (Nat.eqb (length rows) 0) eqn:C3; [discriminate|].
+    destruct (coerce_nil_hit conf names) eqn:C5; [discriminate|].
     set (colspec := fun j =>
            match prep (g_of conf (nth j names [])) fixed (q_precision conf) (column_vals rows j) with
            | Some vals' => spec_column vals'
@@ -416,9 +421,9 @@ Section Read2.
       rewrite Hn. repeat split; auto.
       rewrite Hl. unfold column_vals. now rewrite map_length. }
     assert (Hfinlen : length finals = length names) by (subst finals; now rewrite map_length, seq_length).
-    assert (Halen : length (alloc_columns names conf) = length names)
-      by (unfold alloc_columns; now rewrite map_length).
-    assert (Hrun : run_rows (alloc_columns names conf) rows = Ok finals).
+    assert (Halen : length (alloc_plain names conf) = length names)
+      by (unfold alloc_plain; now rewrite map_length).
+    assert (Hrun : run_rows (alloc_plain names conf) rows = Ok finals).
     { apply run_rows_cols with (dc := dc).
       - intros r Hr. rewrite Halen. apply Nat.eqb_eq. now apply C1.
       - now rewrite Halen.
@@ -447,14 +452,15 @@ Section Read2.
   Qed.
 
   Lemma spec_read_gen_same conf names rows :
+    coerce_nil_hit conf names = false ->
     (forall j, (j < length names)%nat ->
        prep (g_of conf (nth j names [])) fixed (q_precision conf) (column_vals rows j) = Some (column_vals rows j)) ->
     spec_read_gen conf names rows = spec_read names rows.
   Proof.
-    intros H. unfold spec_read_gen, spec_read.
+    intros Hnil H. unfold spec_read_gen, spec_read.
     destruct (negb (forallb _ rows)); [reflexivity|].
     destruct (negb (nodupb names && forallb check_name names)); [reflexivity|].
-    destruct (Nat.eqb (length rows) 0); [reflexivity|].
+    destruct (Nat.eqb (length rows) 0); [reflexivity|]. rewrite Hnil.
     f_equal. f_equal. apply map_ext_in. intros j Hj. apply in_seq in Hj. destruct Hj as [_ Hj]. simpl in Hj.
     match goal with |- match ?p with _ => _ end = _ =>
       replace p with (Some (column_vals rows j)) by (symmetry; exact (H j Hj)) end.
@@ -466,7 +472,8 @@ Section Read2.
     q_coerce conf = None -> (q_precision conf <= 0)%Z ->
     spec_read_gen conf names rows = spec_read names rows.
   Proof.
-    intros Hco Hp. apply spec_read_gen_same. intros j Hj. apply prep_id. intros v Hv. right.
+    intros Hco Hp. apply spec_read_gen_same; [now apply coerce_nil_hit_none|].
+    intros j Hj. apply prep_id. intros v Hv. right.
     split; [|now apply fix_val_nonpos]. unfold g_of, co_of. rewrite Hco. reflexivity.
   Qed.
 
@@ -495,8 +502,8 @@ Section Read2.
       + eapply IH; eauto.
   Qed.
 
-  Lemma alloc_coerce conf names : map c_coerce (alloc_columns names conf) = map (co_of conf) names.
-  Proof. unfold alloc_columns. rewrite map_map. reflexivity. Qed.
+  Lemma alloc_coerce conf names : map c_coerce (alloc_plain names conf) = map (co_of conf) names.
+  Proof. unfold alloc_plain. rewrite map_map. reflexivity. Qed.
 
   Definition st_inv (conf : sql_config) (names : list bytes) (st : list column * list bytes) : Prop :=
     fst st = [] \/ map c_coerce (fst st) = map (co_of conf) names.
@@ -513,10 +520,11 @@ Section Read2.
     assert (Hex : exists cols1 cols', map c_coerce cols1 = map (co_of conf) names
                                       /\ scan_row cols1 row = Ok cols' /\ fst st' = cols').
     { unfold Sql.read_row in H. destruct columns as [|c0 cs].
-      - destruct (match q_coerce conf with Some m => coerce_check m colNames | None => true end); [|discriminate].
+      - rewrite alloc_columns_eq in H. destruct (coerce_nil_hit conf names); [discriminate|]. cbn [obind] in H.
+        destruct (match q_coerce conf with Some m => coerce_check m colNames | None => true end); [|discriminate].
         cbn [obind] in H.
-        destruct (scan_row (alloc_columns names conf) row) as [cols'| |] eqn:E; simpl in H; try discriminate.
-        inversion H; subst. exists (alloc_columns names conf), cols'. split; [apply alloc_coerce|auto].
+        destruct (scan_row (alloc_plain names conf) row) as [cols'| |] eqn:E; simpl in H; try discriminate.
+        inversion H; subst. exists (alloc_plain names conf), cols'. split; [apply alloc_coerce|auto].
       - cbn [obind] in H.
         destruct (scan_row (c0 :: cs) row) as [cols'| |] eqn:E; simpl in H; try discriminate.
         inversion H; subst. exists (c0 :: cs), cols'. split; auto.
@@ -687,8 +695,18 @@ Section Read2.
 
   (* ================================================================ (6) the round trip with options *)
 
+  Lemma coerce_entry_co_of conf n : coerce_entry conf n = None -> co_of conf n = None.
+  Proof. unfold coerce_entry, co_of, coerce_lookup. destruct (q_coerce conf); [|reflexivity]. now intros ->. Qed.
+
+  Lemma coerce_nil_hit_unbound conf names :
+    (forall n, In n names -> coerce_entry conf n = None) -> coerce_nil_hit conf names = false.
+  Proof.
+    intros H. unfold coerce_nil_hit. destruct (existsb _ names) eqn:E; [|reflexivity].
+    apply existsb_exists in E as (n & Hn & Hx). rewrite (H n Hn) in Hx. discriminate.
+  Qed.
+
   Lemma roundtrip_options f conf cols :
-    (forall n, In n (map fst (fcols f)) -> co_of conf n = None) ->
+    (forall n, In n (map fst (fcols f)) -> coerce_entry conf n = None) ->
     ((q_precision conf <= 0)%Z \/
      forall rows row x, spec_rows f = Some rows -> In row rows -> In (DFloat x) row ->
                         fixed x (q_precision conf) = x) ->
@@ -702,12 +720,12 @@ Section Read2.
     exists (map (mk_stmt f conf) rows). split; [now apply to_sql_statements|]. split.
     - rewrite map_length. now apply spec_rows_length.
     - unfold store_of. rewrite map_map. unfold mk_stmt. simpl. rewrite map_id.
-      apply read_sql_gen_spec. rewrite spec_read_gen_same; [exact Hs|].
+      apply read_sql_gen_spec. rewrite spec_read_gen_same; [exact Hs|now apply coerce_nil_hit_unbound|].
       intros j Hj. apply prep_id. intros v Hv.
       unfold column_vals in Hv. apply in_map_iff in Hv as (r & Hv & Hr).
       destruct (nth_in_or_default j r DNull) as [Hin|Hd]; [|left; congruence].
       right. split.
-      + unfold g_of. rewrite Hco by (apply nth_In; exact Hj). reflexivity.
+      + unfold g_of. rewrite (coerce_entry_co_of _ _ (Hco _ (nth_In _ _ Hj))). reflexivity.
       + destruct v; try reflexivity. destruct Hp as [Hp|Hp]; [now apply fix_val_nonpos|].
         simpl. rewrite Hv in Hin. rewrite (Hp rows r b eq_refl Hr Hin). now destruct (0 <? q_precision conf)%Z.
   Qed.
@@ -726,11 +744,11 @@ Section Read2.
 
   (* the column-level statement as a statement about ReadSQL on a result set with one column *)
   Lemma read_sql_single conf n vals vals' d :
-    check_name n = true ->
+    check_name n = true -> coerce_nil_hit conf [n] = false ->
     prep (g_of conf n) fixed (q_precision conf) vals = Some vals' -> spec_column vals' = Some d ->
     read_sql conf (mkRS [n] (one_col vals)) no_faults = Ok [(n, d)].
   Proof.
-    intros Hn Hp Hs. apply read_sql_gen_spec. unfold spec_read_gen.
+    intros Hn Hnil Hp Hs. apply read_sql_gen_spec. unfold spec_read_gen.
     assert (H1 : forallb (fun r : list dval => Nat.eqb (length r) (length [n])) (one_col vals) = true).
     { apply forallb_forall. intros r Hr. unfold one_col in Hr. apply in_map_iff in Hr as (v & <- & _). reflexivity. }
     rewrite H1. cbn [negb nodupb existsb forallb andb]. rewrite Hn. cbn [negb andb].
@@ -739,20 +757,21 @@ Section Read2.
       assert (Hl : length vals' = length vals)
         by (unfold prep in Hp; apply opt_all_length in Hp; now rewrite map_length in Hp).
       pose proof (spec_column_nonempty _ _ Hs). destruct vals'; [congruence|]. simpl in Hl. lia. }
-    rewrite H3. cbn [length seq map nth]. rewrite column_vals_one_col.
+    rewrite H3. rewrite Hnil. cbn [length seq map nth]. rewrite column_vals_one_col.
     match goal with |- context [match ?p with Some _ => _ | None => _ end] =>
       replace p with (Some vals') by (symmetry; exact Hp) end.
     rewrite Hs. reflexivity.
   Qed.
 
   Lemma read_sql_precision_float conf n vals xs :
-    check_name n = true -> co_of conf n = None -> (0 < q_precision conf)%Z ->
+    check_name n = true -> coerce_entry conf n = None -> (0 < q_precision conf)%Z ->
     spec_column vals = Some (CFloat xs) ->
     read_sql conf (mkRS [n] (one_col vals)) no_faults
     = Ok [(n, CFloat (map (fix_cell (q_precision conf)) vals))].
   Proof.
     intros Hn Hco Hp Hs. apply read_sql_single with (vals' := map (fix_val fixed (q_precision conf)) vals); auto.
-    - unfold g_of. rewrite Hco. apply prep_some.
+    - apply coerce_nil_hit_unbound. intros m [<-|[]]. exact Hco.
+    - unfold g_of. rewrite (coerce_entry_co_of _ _ Hco). apply prep_some.
     - eapply spec_column_float_fix; eauto.
   Qed.
 
@@ -795,8 +814,9 @@ Section Read2.
       - unfold st_len. simpl. rewrite (scan_row_length fixed pf _ _ _ E). exact Hl.
       - eapply scan_row_no_panic2; eauto. }
     destruct columns as [|c0 cs].
-    - destruct (match q_coerce conf with Some m => coerce_check m colNames | None => true end); [|exact I].
-      cbn [obind]. apply Hgen. unfold alloc_columns. now rewrite map_length.
+    - rewrite alloc_columns_eq. destruct (coerce_nil_hit conf names); [exact I|]. cbn [obind].
+      destruct (match q_coerce conf with Some m => coerce_check m colNames | None => true end); [|exact I].
+      cbn [obind]. apply Hgen. unfold alloc_plain. now rewrite map_length.
     - cbn [obind]. apply Hgen. exact Hlen.
   Qed.
 
@@ -960,20 +980,25 @@ Section Read2.
     spec_read_must_fail fixed pf conf names rows = true ->
     read_sql conf (mkRS names rows) no_faults = Fail.
   Proof.
-    unfold spec_read_must_fail. intros H. apply andb_true_iff in H as [_ H].
-    apply existsb_exists in H as (j & Hj & Hcol). apply in_seq in Hj. destruct Hj as [_ Hj]. simpl in Hj.
+    unfold spec_read_must_fail. intros H.
     apply outcome_fail; [|apply read_sql_no_panic2].
     intros res. unfold Sql.read_sql. cbn [sf_prepare sf_query sf_row no_faults]. unfold Sql.io_read_sql.
     cbn [rs_names rs_rows].
+    apply orb_true_iff in H as [H|H].
+    { (* a column of the result set is bound to an entry without function *)
+      apply andb_true_iff in H as [Hr Hnil]. destruct rows as [|r rs]; [discriminate|].
+      rewrite read_rows_first2, Hnil. discriminate. }
+    apply andb_true_iff in H as [_ H].
+    apply existsb_exists in H as (j & Hj & Hcol). apply in_seq in Hj. destruct Hj as [_ Hj]. simpl in Hj.
     destruct rows as [|r rs].
     { exfalso. unfold col_must_fail in Hcol. simpl in Hcol. discriminate. }
-    rewrite read_rows_first2.
-    destruct (run_rows (alloc_columns names conf) (r :: rs)) as [finals| |] eqn:Erun; simpl; try discriminate.
+    rewrite read_rows_first2. destruct (coerce_nil_hit conf names); [discriminate|].
+    destruct (run_rows (alloc_plain names conf) (r :: rs)) as [finals| |] eqn:Erun; simpl; try discriminate.
     exfalso.
-    assert (Hc : nth_error (alloc_columns names conf) j
+    assert (Hc : nth_error (alloc_plain names conf) j
                  = Some (new_column (q_precision conf) (co_of conf (nth j names [])))).
     { rewrite <- (alloc_nth conf names j (new_column 0 None) Hj). apply nth_error_nth'.
-      unfold alloc_columns. now rewrite map_length. }
+      unfold alloc_plain. now rewrite map_length. }
     destruct (run_rows_nth _ _ _ _ _ Erun Hc) as (c' & Hs & _).
     exact (scan_col_must_fail conf (nth j names []) (column_vals (r :: rs) j) c' Hcol Hs).
   Qed.
@@ -984,5 +1009,37 @@ Section Read2.
   Proof.
     intros Hs. destruct (spec_read_must_fail fixed pf conf names rows) eqn:E; [|reflexivity].
     apply read_sql_gen_spec in Hs. rewrite (read_sql_must_fail _ _ _ E) in Hs. discriminate.
+  Qed.
+  (* C19_coerce_without_function_is_error: a coercion map entry WITHOUT function (config/sql.Coerce with a
+     CoercePair whose Type is none of the constants stores the Go value nil) for a column of the result set:
+     as soon as there is a row, ReadSQL reports an error — whatever the driver does, and never a panic *)
+  Lemma coerce_nil_hit_in conf names n :
+    In n names -> coerce_entry conf n = Some None -> coerce_nil_hit conf names = true.
+  Proof.
+    intros Hin He. unfold coerce_nil_hit. apply existsb_exists. exists n. split; [exact Hin|]. now rewrite He.
+  Qed.
+
+  Lemma read_sql_coerce_without_function conf rs flt n :
+    rs_rows rs <> [] -> In n (rs_names rs) -> coerce_entry conf n = Some None ->
+    read_sql conf rs flt = Fail.
+  Proof.
+    intros Hrows Hin He. unfold Sql.read_sql.
+    destruct (sf_prepare flt); [reflexivity|]. destruct (sf_query flt); [reflexivity|].
+    unfold Sql.io_read_sql. destruct (rs_rows rs) as [|r rest]; [congruence|].
+    cbn [Sql.read_rows].
+    destruct (match sf_row flt with Some j => Nat.eqb j 0 | None => false end); [reflexivity|].
+    rewrite read_row_first. rewrite (coerce_nil_hit_in conf (rs_names rs) n Hin He). reflexivity.
+  Qed.
+
+  (* the specification demands exactly this error *)
+  Lemma spec_coerce_without_function conf names rows n :
+    rows <> [] -> In n names -> coerce_entry conf n = Some None ->
+    spec_read_must_fail fixed pf conf names rows = true /\ spec_read_gen conf names rows = None.
+  Proof.
+    intros Hrows Hin He. pose proof (coerce_nil_hit_in conf names n Hin He) as Hnil. split.
+    - unfold spec_read_must_fail. rewrite Hnil. destruct rows; [congruence|reflexivity].
+    - unfold spec_read_gen. rewrite Hnil.
+      destruct (negb (forallb _ rows)); [reflexivity|]. destruct (negb (nodupb names && _)); [reflexivity|].
+      destruct (Nat.eqb (length rows) 0); reflexivity.
   Qed.
 End Read2.
